@@ -65,7 +65,10 @@ def to_spec(o):
         # IntFlag, StrEnum, (str, Enum), ...): repr_object tests isinstance(obj, Enum) before it falls
         # back to literal_value, and the model's VEnum case mirrors exactly that order
         if o.name is None or t.__members__.get(o.name) is not o:
-            raise Undescribable("flag combination without a member name")
+            # a value of a Flag class that is not a named member: P.R | P.W, P(0)
+            if not isinstance(o, enum.Flag) or type(o.value) is not int:
+                raise Undescribable("unnamed enum value that is not an int flag")
+            return {"t": "flag", "c": cref(t), "v": str(o.value)}
         return {"t": "enum", "c": cref(t), "m": o.name}
     if t is bool:
         return {"t": "bool", "v": o}
@@ -125,7 +128,14 @@ def to_spec(o):
 
 def describe_class(cls):
     if isinstance(cls, type) and issubclass(cls, enum.Enum):
-        return {"c": cref(cls), "kind": "enum", "members": list(cls.__members__)}
+        names = list(cls.__members__)
+        flags = None
+        if issubclass(cls, enum.Flag):
+            flags = [cls.__members__[n].value for n in names]
+            if not all(type(v) is int for v in flags):
+                raise Undescribable("Flag class with non-int values")
+            flags = [str(v) for v in flags]
+        return {"c": cref(cls), "kind": "enum", "members": names, "flags": flags}
     fds = []
     for f in CT.get_fields(cls):
         d = CT.default_value(f, default=UNSET)
@@ -197,6 +207,8 @@ def build(r):
         return XmlPeriod(sfrom(r["v"]))
     if t == "enum":
         return lookup_class(r["c"])[r["m"]]
+    if t == "flag":
+        return lookup_class(r["c"])(int(r["v"]))
     if t == "list":
         return [build(x) for x in r["v"]]
     if t == "tuple":
